@@ -192,14 +192,19 @@ fn confirm_real(m1: &Message<'static>, r1: &(String, Vec<u8>, bool), m2: &Messag
                 }
             }
             "others-not-delayed" => {
+                // an unpaced exchange takes microseconds; on a loaded machine single measurements can be slow, so up to
+                // 40 are taken and one fast one refutes the candidate (a pacing delay is never shorter than its sleep)
                 let mut min = f64::MAX;
-                for _ in 0..5 {
+                for k in 0..40 {
                     if let Some(ms) = real_measure(&pair) {
                         min = min.min(ms[which].2);
                     }
+                    if k >= 4 && min < 0.030 {
+                        break;
+                    }
                 }
                 if min != f64::MAX && min >= 0.030 {
-                    confirmed.push((clause, class, format!("{} | real clock: minimum over 5 repetitions {:.2} ms", detail, min * 1e3)));
+                    confirmed.push((clause, class, format!("{} | real clock: minimum over 40 repetitions {:.2} ms", detail, min * 1e3)));
                 }
             }
             _ => confirmed.push((clause, class, detail)),
@@ -311,6 +316,16 @@ pub fn run(ctx: &Ctx) -> Report {
                     best = (best.0.min(ms[0].0), best.1.min(ms[0].1), best.2.min(ms[0].2));
                 }
             }
+            // loaded machine: an unpaced exchange that looks slow is measured up to 35 more times; one fast
+            // measurement settles it (a real pacing delay can never be shorter than its sleep)
+            let mut extra = 0;
+            while !is_chunk && !got_inprog && best.2 >= 0.030 && best.2 != f64::MAX && extra < 35 {
+                extra += 1;
+                real_evals += 1;
+                if let Some(ms) = real_measure(&pair) {
+                    best = (best.0.min(ms[0].0), best.1.min(ms[0].1), best.2.min(ms[0].2));
+                }
+            }
             if best.2 == f64::MAX {
                 rep.machinery_errors.push(format!("real-clock measurement of {} failed", msg_str(m)));
                 continue;
@@ -326,7 +341,7 @@ pub fn run(ctx: &Ctx) -> Report {
                 vs.push(("100ms-after-in-progress-report", "real-clock".into(), format!("{} answered by {}: real clock {:.2} ms between reading the report and returning", msg_str(m), rk[r].0, best.1 * 1e3)));
             }
             if !is_chunk && !got_inprog && best.2 >= 0.030 {
-                vs.push(("others-not-delayed", "real-clock".into(), format!("{} (reply {}): real clock minimum over 5 repetitions {:.2} ms", msg_str(m), rk[r].0, best.2 * 1e3)));
+                vs.push(("others-not-delayed", "real-clock".into(), format!("{} (reply {}): real clock minimum over up to 40 repetitions {:.2} ms", msg_str(m), rk[r].0, best.2 * 1e3)));
             }
             for (clause, class, detail) in vs {
                 all.violation(ID, Violation::new(clause, class, detail, json!({"kind": "real", "m": msg_json(m), "r": {"name": rk[r].0, "line": hex(&rk[r].1), "in_progress": rk[r].2}}), (1 << 40) + i as u64));
